@@ -13,6 +13,8 @@ CHECKS = {
          "Every step compares all handles that are not the operation's target before/after (raw 16 bytes, pointer, length, text vs model), in histories where buffers are shared, truncated while shared and later written in place.", "DESIGN.md §6 C02"),
  "C03": ("exploration", "lsv", "model-based stateful PBT with a shadow heap (guard zones, quarantine, always-moving realloc) and a refcount-equals-live-handles invariant after every step",
          "The crate's own allocator calls go through a shadow heap: exact layout on free, no double free, no access outside live blocks (access notes), refcount == live handles per buffer after every step, no orphan block, empty heap at the end; incl. failing and panicking operations.", "DESIGN.md §6 C03"),
+ "C04": ("exploration", "lsv-loom", "proptest-generated concurrent programs, each explored by loom over all schedules up to a preemption bound; buffer accesses mapped to loom cells through the hooks; per-thread sequential String model",
+         "Small concurrent programs over one shared heap buffer are generated and shrunk by proptest; for each, loom enumerates schedules and visibility orders. Oracles in every execution: each thread's handles read what its own operations produce; no buffer access (reads, write windows, realloc, free) unordered with a conflicting one; every buffer released exactly once. Bounded by loom's preemption bound and memory-model subset.", "DESIGN.md §5.4, §6 C04"),
  "C05": ("fault_enumeration", "lsv", "fault injection enumerated over every allocator request of proptest-generated histories (singles; pairs in thorough)",
          "For each generated history every allocator request index is failed in turn (thorough: pairs); oracle: Err/clean panic, target unchanged (or whole-item prefix for iterator-driven calls), other handles untouched, refcounts and heap consistent, nothing leaked.", "DESIGN.md §6 C05"),
  "C06": ("exploration", "lsv", "exhaustive size grid (powers of two, 56-bit boundary, isize/usize MAX, each +-2 and minus len) x entry points x target states, plus proptest histories with giant sizes and lying size hints; shim refuses giant requests deterministically",
@@ -74,6 +76,8 @@ def main():
             "add_only": True,
         },
         "engines": [
+            {"name": "lsv-loom", "path": "harness-loom/", "serves_properties": ["C04"],
+             "kind_free_text": "proptest program generator + loom schedule exploration (one child process per program), hooks map buffer accesses to loom cells"},
             {"name": "lsv", "path": "harness/", "serves_properties": sorted(p for p, c in CHECKS.items() if c[1] == "lsv"),
              "kind_free_text": "proptest-driven stateful model-based history explorer with shadow heap, fault/panic enumerators, grids and value-domain differential engines"},
         ],
